@@ -225,3 +225,8 @@ def fresh(x):
 def split_off(s, sep, k):
     """smt-builtin: start position of the k-th field of s.split(sep)"""
     return sum(len(f) + 1 for f in s.split(sep)[:k])
+
+
+def is_in(x, lst):
+    """smt-builtin: x is (identity) one of the elements of lst"""
+    return any(x is e for e in lst)
